@@ -145,7 +145,9 @@ def validate(
             try:
                 discarded = set(map(get_field_name, validator.discard))
                 next_validators = (
-                    v for v in validators[i:] if v.dependencies.isdisjoint(discarded)
+                    v
+                    for v in validators[i + 1 :]
+                    if v.dependencies.isdisjoint(discarded)
                 )
                 validate(obj, next_validators, kwargs, aliaser=aliaser)
             except ValidationError as err:
